@@ -326,6 +326,12 @@ impl<'c> Exec<'c> {
         }
     }
 
+    /// Records the kind of result of an operation (evidence: what the workload actually reached).
+    fn result(&mut self, op: &str, kind: &str) {
+        self.trace.add_s(kind);
+        *self.stats.probes.entry(format!("result:{op}:{kind}")).or_insert(0) += 1;
+    }
+
     fn is_maybe_blocked(&self, s: &[i32]) -> bool {
         self.maybe_blocked.iter().any(|m| s[..m.len()] == m[..])
     }
@@ -657,11 +663,11 @@ impl<'c> Exec<'c> {
         self.stats.solves += 1;
         let r = match res {
             SatisfactionResult::Satisfiable(s) => {
-                self.trace.add_s("sat");
+                self.result("satisfy", "sat");
                 self.check_solution(&s, "satisfy").map(|_| ())
             }
             SatisfactionResult::Unsatisfiable => {
-                self.trace.add_s("unsat");
+                self.result("satisfy", "unsat");
                 if !self.lo_is_empty() {
                     let n = self.sols_lo().len();
                     viol(self.cur_op, "H-VERDICT:unsat-but-solutions", format!("satisfy: Unsatisfiable but the model has {n} solutions, e.g. {:?}", self.sols_lo()[0]))
@@ -671,7 +677,7 @@ impl<'c> Exec<'c> {
                 }
             }
             SatisfactionResult::Unknown => {
-                self.trace.add_s("unknown");
+                self.result("satisfy", "unknown");
                 self.judge_unknown(fired, exhausted, "satisfy")
             }
         };
@@ -746,7 +752,7 @@ impl<'c> Exec<'c> {
         }
         let _ = conflicting_panic_expected;
         let (fired, exhausted) = self.after_clock(&clock);
-        self.trace.add_s(tag);
+        self.result("assume", tag);
         verdict?;
         match tag {
             "sat" => {
@@ -873,7 +879,7 @@ impl<'c> Exec<'c> {
             }
         }
         result?;
-        self.trace.add_s(if finished { "finished" } else if unknown { "unknown" } else { "stopped" });
+        self.result("iterate", if finished { "finished" } else if unknown { "unknown" } else { "stopped" });
         if finished {
             // the last solution was blocked too (that is how the end was detected), unless the
             // very first call reported Unsatisfiable
@@ -962,7 +968,8 @@ impl<'c> Exec<'c> {
         let opt_lo = best_of(&mut self.refm.sols.iter().filter(|s| !self.is_maybe_blocked(s)));
         match res {
             OptimisationResult::Optimal(s) => {
-                self.trace.add_s("optimal");
+                self.result("optimise", "optimal");
+                *self.stats.probes.entry(format!("optimise:incumbents:{}", inc_vals.len().min(5))).or_insert(0) += 1;
                 let v = self.check_solution(&s, "optimise result")?;
                 let val = obj.eval(&v);
                 if Some(val) != opt_hi && Some(val) != opt_lo {
@@ -970,19 +977,19 @@ impl<'c> Exec<'c> {
                 }
             }
             OptimisationResult::Unsatisfiable => {
-                self.trace.add_s("unsat");
+                self.result("optimise", "unsat");
                 if !self.lo_is_empty() {
                     return viol(self.cur_op, "H-OPT:unsat-but-solutions", format!("optimise: Unsatisfiable but the model has solutions, e.g. {:?}", self.sols_lo()[0]));
                 }
                 self.dead = true;
             }
             OptimisationResult::Satisfiable(s) => {
-                self.trace.add_s("satisfiable");
+                self.result("optimise", "satisfiable");
                 let _ = self.check_solution(&s, "optimise best-so-far")?;
                 self.judge_unknown(fired, exhausted, "optimise")?;
             }
             OptimisationResult::Unknown => {
-                self.trace.add_s("unknown");
+                self.result("optimise", "unknown");
                 self.judge_unknown(fired, exhausted, "optimise")?;
             }
         }
